@@ -481,6 +481,27 @@ func genPattern(r *hx.Rng, kind int, pool []string) (string, string, bool) {
 		return p, "", false
 	default:
 		re := hx.Pick(r, regexPool)
+		if r.Chance(1, 2) {
+			// a literal derived from the target: the whole string or a proper piece of it, anchored at
+			// both ends, one end or not at all (FILTERING.md's exact-match recipe is `^…$`)
+			lo := r.Intn(len(target) + 1)
+			hi := lo + r.Intn(len(target)-lo+1)
+			piece := target[lo:hi]
+			if r.Chance(1, 3) {
+				piece = target
+			}
+			q := regexp.QuoteMeta(piece)
+			switch r.Intn(4) {
+			case 0:
+				re = "^" + q + "$"
+			case 1:
+				re = "^" + q
+			case 2:
+				re = q + "$"
+			default:
+				re = q
+			}
+		}
 		p := "regex:" + re
 		if kind == kNegRegex {
 			p = "!" + p
